@@ -1154,7 +1154,11 @@ class Sim:
         nx = w.node_of(x.units.registry)
         ny = w.node_of(y.units.registry)
         nr = w.node_of(res.units.registry)
-        if nr not in (nx, ny):
+        handed_out = (str(res.units.expr) in ("delta_degC", "delta_degF")
+                      or (op.get("f") == "arctan2" and str(res.units.expr) == "1")) and nr == 0
+        if nr not in (nx, ny) and not handed_out:
+            # (handed_out: the module-level delta_degC / delta_degF / dimensionless unit that the unit rules of
+            # the pinned tree return for degC - degC and arctan2, whatever registry the operands live in)
             self.violate("cross-registry", ["C13"],
                          {"op": op, "left": nx, "right": ny, "result": nr,
                           "note": "result of a mixed-registry operation is bound to a third registry"},
